@@ -262,7 +262,7 @@ Print Assumptions C13_fixed_restores_failing_query.
    ====================================================================================== *)
 From Agdb Require GraphSim.
 From Agdb Require Import AliasProofs IndexDb3Proofs DbInvProofs QueryInvProofs QStepProofs InvSimProofs RollbackInvProofs
-  PstepOpsProofs QueryPstepsProofs TraversalLiveProofs NoPanicProofs HistoryAtomicProofs HistoryAtomicExamples.
+  PstepOpsProofs QueryPstepsProofs TraversalLiveProofs NoPanicProofs WfRepProofs HistoryAtomicProofs HistoryAtomicInv HistoryAtomicExamples.
 
 Theorem C13_restored_def :
   forall d d', restored d d' <->
@@ -328,13 +328,21 @@ Theorem C13_Inv_of_sim :
 Proof. exact Inv_of_sim. Qed.
 Print Assumptions C13_Inv_of_sim.
 
-(* ---- a failing query: ALL query kinds ---- *)
+(* the C13 well-formedness follows from the joint invariant (theories/WfRepProofs.v: the graph invariant
+   wf of C08 implies the array well-formedness `rep` of C13 when the capacity fits i64), so Inv is the
+   only assumption on the state below *)
+Theorem C13_db_ok_from_Inv :
+  forall d, Inv d -> capacity (gr d) <= two63z -> db_ok d.
+Proof. exact Inv_db_ok. Qed.
+Print Assumptions C13_db_ok_from_Inv.
+
+(* ---- a failing query: ALL query kinds, from EVERY state satisfying Inv (outside a transaction) ---- *)
 Theorem C13_exec_failure_restores :
   forall d q d' e,
-    query_ok q -> HInv d -> capacity (gr (fst (exec_in_txn rv_fixed d q))) <= two63z ->
+    query_ok q -> Inv d -> undo d = [] -> capacity (gr (fst (exec_in_txn rv_fixed d q))) <= two63z ->
     exec rv_fixed d q = (d', QErr e) ->
-    restored d d' /\ HInv d'.
-Proof. exact exec_failure_restores_fixed. Qed.
+    restored d d' /\ Inv d' /\ undo d' = [] /\ capacity (gr d') <= two63z.
+Proof. exact exec_failure_restores_Inv. Qed.
 Print Assumptions C13_exec_failure_restores.
 
 (* ---- a transaction: committed, or failing at any point (a failing query, or a failure injected after
@@ -342,12 +350,12 @@ Print Assumptions C13_exec_failure_restores.
         failed the state is restored ---- *)
 Theorem C13_transaction_failure_restores :
   forall d qs fail_at_end,
-    Forall query_ok qs -> HInv d -> capacity (gr (fst (fst (txn_run rv_fixed d qs [])))) <= two63z ->
-    HInv (fst (transaction rv_fixed d qs fail_at_end)) /\
-    snd (transaction rv_fixed d qs fail_at_end) = snd (fst (txn_run rv_fixed d qs [])) /\
-    (negb (snd (txn_run rv_fixed d qs []) && negb fail_at_end) = true ->
-     restored d (fst (transaction rv_fixed d qs fail_at_end))).
-Proof. exact transaction_atomic_fixed. Qed.
+    Forall query_ok qs -> Inv d -> undo d = [] -> capacity (gr (fst (fst (txn_run rv_fixed d qs [])))) <= two63z ->
+    let r := transaction rv_fixed d qs fail_at_end in
+    (Inv (fst r) /\ undo (fst r) = [] /\ capacity (gr (fst r)) <= two63z) /\
+    snd r = snd (fst (txn_run rv_fixed d qs [])) /\
+    (negb (snd (txn_run rv_fixed d qs []) && negb fail_at_end) = true -> restored d (fst r)).
+Proof. exact transaction_atomic_Inv. Qed.
 Print Assumptions C13_transaction_failure_restores.
 
 (* ---- every history of queries and transactions from the empty database, failing or not: at every
